@@ -18,9 +18,9 @@ use std::collections::BTreeSet;
 pub const SPEC: PropSpec = PropSpec {
     id: "C05",
     level: "exploration",
-    rule: "Cases = (well-formed document over prefixes {default, p, q, xsi, undeclared zz}, URIs {u1, u2, empty, the XSI URI}, names {a, b}, nesting <= 5, with declarations, re-declarations, xmlns=\"\", xmlns:p=\"\", shadowing, same prefix on siblings, declarations on empty elements; consumer history: per call read_event or read_resolved_event, after each Start optionally skip (read_to_end / read_to_end_into / read_to_end_into_async) or read_text, and after any child event optionally skip the rest of the enclosing element; source slice / buffered piece 1 or random / async; expand_empty_elements on/off). After every Start, Empty and End event and after every skip the monitor compares with the scope model R_ns: the ResolveResult returned by read_resolved_event, resolve_element(name), resolve_attribute(key) for every attribute of the event, a fixed probe set (each pool prefix, unprefixed as element and as attribute, xml:, xmlns:, an undeclared prefix), the SET yielded by prefixes(), and Attributes::has_nil. Exhaustive: all documents of a 4-element skeleton pool x all skip/text choices (3^k) x 3 read-kind patterns; random documents and histories beyond. Separately: attempts to rebind xml / xmlns or to bind another prefix to their URIs must return the documented NamespaceError and leave the bindings unchanged. Non-trivial = the history contains at least one skip or read_text, or the document a re-declaration / un-declaration.",
+    rule: "Cases = (well-formed document over prefixes {default, p, q, xsi, undeclared zz}, URIs {u1, u2, empty, the XSI URI}, names {a, b}, nesting <= 5, with declarations, re-declarations, xmlns=\"\", xmlns:p=\"\", shadowing, same prefix on siblings, declarations on empty elements; consumer history: per call read_event or read_resolved_event, after each Start optionally skip (read_to_end / read_to_end_into / read_to_end_into_async) or read_text, and from anywhere inside an element optionally skip the rest of the innermost open element or of one of its ancestors; source slice / buffered piece 1 or random / async; expand_empty_elements on/off). After every Start, Empty and End event and after every skip the monitor compares with the scope model R_ns: the ResolveResult returned by read_resolved_event, resolve_element(name), resolve_attribute(key) for every attribute of the event, a fixed probe set (each pool prefix, unprefixed as element and as attribute, xml:, xmlns:, an undeclared prefix), the SET yielded by prefixes(), and Attributes::has_nil. Exhaustive: all documents of a 4-element skeleton pool x all skip/text choices (3^k) x 3 read-kind patterns; random documents and histories beyond. Separately: attempts to rebind xml / xmlns or to bind another prefix to their URIs must return the documented NamespaceError and leave the bindings unchanged. Non-trivial = the history contains at least one skip or read_text, or the document a re-declaration / un-declaration.",
     assumptions: &["R_tok and R_attr are used as tools to get the token stream and the attribute lists", "namespace names are the raw attribute values (quick-xml documents that they are not normalised)"],
-    required: &["probes.Bound", "probes.Unbound", "probes.Unknown", "skips", "skips_mid_element", "skip_then_resolve_sibling", "read_texts", "scopes_pushed", "undeclarations_seen", "shadowing_seen", "has_nil.true", "has_nil.false", "namespace_errors_checked", "source.slice", "source.buffered", "source.async", "prefix_sets_compared"],
+    required: &["probes.Bound", "probes.Unbound", "probes.Unknown", "skips", "skips_mid_element", "skips_closing_several_elements", "skip_then_resolve_sibling", "read_texts", "scopes_pushed", "undeclarations_seen", "shadowing_seen", "has_nil.true", "has_nil.false", "namespace_errors_checked", "source.slice", "source.buffered", "source.async", "prefix_sets_compared"],
     run,
     replay,
     thorough_layers: &[],
@@ -53,6 +53,7 @@ pub struct Local {
     unknown: u64,
     skips: u64,
     mid_skips: u64,
+    ancestor_skips: u64,
     skip_sibling: u64,
     texts: u64,
     pushed: u64,
@@ -479,38 +480,66 @@ fn check_with<R: NsRd>(mut r: R, input: &[u8], expand: bool, hist: &History, loc
                 }
             }
         }
-        // skip the rest of the enclosing element after a child event (not directly after its Start)
-        if kind != Kind::Start && hist.mid_bits >> ((call - 1) % 64) & 1 == 1 {
-            if let Some(x) = open.last().cloned() {
-                let mut depth = 0;
+        // skip the rest of an enclosing element: after a child event the innermost open element, or -
+        // from anywhere inside - one of its ancestors (read_to_end(name) reads up to the first end
+        // tag with that name that is not matched by a same-named start tag read on the way)
+        if hist.mid_bits >> ((call - 1) % 64) & 1 == 1 && !open.is_empty() {
+            let want_ancestor = hist.resolved_bits >> ((call + 7) % 64) & 1 == 1;
+            let di = if want_ancestor { (call as usize) % open.len() } else { open.len() - 1 };
+            // directly after a Start the innermost element is handled by the per-Start action
+            if !(kind == Kind::Start && di == open.len() - 1) {
+                let x = open[di].clone();
+                // find the end tag the call will stop at and count how many open elements it closes
+                let mut same = 0usize;
+                let mut local = 0usize;
+                let mut closed = 0usize;
                 let mut e = ti;
-                loop {
+                let found = loop {
                     match toks.get(e) {
-                        None => return Err("generator produced an unbalanced document".into()),
-                        Some(Obs::Ev(Kind::Start, _, _)) => depth += 1,
-                        Some(Obs::Ev(Kind::End, _, _)) => {
-                            if depth == 0 {
-                                break;
+                        None => break false,
+                        Some(Obs::Ev(Kind::Start, _, n)) => {
+                            local += 1;
+                            if *n == x {
+                                same += 1;
                             }
-                            depth -= 1;
+                        }
+                        Some(Obs::Ev(Kind::End, _, n)) => {
+                            if local > 0 {
+                                local -= 1;
+                            } else {
+                                closed += 1;
+                            }
+                            if *n == x {
+                                if same == 0 {
+                                    break true;
+                                }
+                                same -= 1;
+                            }
                         }
                         _ => {}
                     }
                     e += 1;
+                };
+                if found {
+                    loc.mid_skips += 1;
+                    if closed > 1 {
+                        loc.ancestor_skips += 1;
+                    }
+                    if !r.skip(&x)? {
+                        return Err(format!("read_to_end({:?}) from inside the element (after call {}) failed on a well-formed document", show(&x), call - 1));
+                    }
+                    ti = e + 1;
+                    if m.pending {
+                        m.frames.pop();
+                        m.pending = false;
+                    }
+                    for _ in 0..closed {
+                        m.frames.pop();
+                        open.pop();
+                    }
+                    after_skip = true;
+                    compare_scope(&r, &m, &format!("after read_to_end({:?}) called from inside it (after call {}; {} open element(s) closed by the skip)", show(&x), call - 1, closed), loc)?;
                 }
-                loc.mid_skips += 1;
-                if !r.skip(&x)? {
-                    return Err(format!("read_to_end({:?}) in the middle of the element (after call {}) failed on a well-formed document", show(&x), call - 1));
-                }
-                ti = e + 1;
-                if m.pending {
-                    m.frames.pop();
-                    m.pending = false;
-                }
-                m.frames.pop();
-                open.pop();
-                after_skip = true;
-                compare_scope(&r, &m, &format!("after skipping the rest of <{}> following a child event (call {})", show(&x), call - 1), loc)?;
             }
         }
     }
@@ -779,6 +808,7 @@ fn flush(ctx: &mut Ctx, loc: &Local) {
     ctx.add("probes.Unknown", loc.unknown);
     ctx.add("skips", loc.skips);
     ctx.add("skips_mid_element", loc.mid_skips);
+    ctx.add("skips_closing_several_elements", loc.ancestor_skips);
     ctx.add("skip_then_resolve_sibling", loc.skip_sibling);
     ctx.add("read_texts", loc.texts);
     ctx.add("scopes_pushed", loc.pushed);
